@@ -144,6 +144,7 @@ Exec(e, st, subs) ==
                 ELSE IF c.b THEN Exec(e.args[2], st, subs) ELSE Exec(e.args[3], st, subs)
       [] op = "REPEAT" -> Loop(e.args[1], e.args[2], st, subs)
       [] op = "SLOT_CANCEL" -> [st EXCEPT !.cancel = TRUE]
+      [] op = "GET_NPC" -> [st EXCEPT !.loc = ("ret_val" :> Cast(64, FALSE, st.uf.npc)) @@ st.loc]
       [] op = "CALL" ->
             IF e.name \notin DOMAIN subs THEN [st EXCEPT !.stuck = "nosub:" \o e.name]
             ELSE LET sr == subs[e.name]
